@@ -217,6 +217,7 @@ def run(ctx):
     # another amount than the requested one)
     from . import c01 as _c01
     _c01.shared_plate_copy(ctx, 'C02.R3')
+    _c01.no_bulk_contents_writes(ctx, 'C02.R2')
     return {'explanation': 'R1: each unit branch of the transfer computes ratio = requested / total with the numerator '
                            'derived from the user quantity and the denominator from the source, both in the same unit '
                            '(units engine: the ratio is dimensionless with scale 1 on all paths and kinds), and the '
